@@ -54,6 +54,13 @@ CLAIMED['C02'] = dict(
     note='Trusted: rustc MIR, the driver, image::ImageBuffer::new zero-fills, the blend-mode numbering of the spec (DESIGN.md Appendix A). Structural clauses only; numeric equality with Aseprite is C03 (not applicable).',
     technique='static analysis: MIR provenance + dominance (guards) + switch-table extraction')
 
+CLAIMED['C06'] = dict(
+    category='other',
+    text='Static check over rustc MIR of how cel pixels are decoded and handed to the rasteriser, decided for all inputs: cel chunk layout (signed x/y, four cel types, declared payload size w*h*bytes_per_pixel) equals the spec table; cel-type, colour-depth and bytes-per-pixel tables read off the match arms; RGBA = four consecutive byte reads in order, grayscale (v,a) -> [v,v,v,a], indexed -> [c.red,c.green,c.blue,A] with A = 0 exactly under (transparent_index == index && !layer_is_background); background flag from the cel\'s own layer (bit 0x8), transparent index from the header field; linked cels resolved against the same layer in the linked frame and drawn through the same routine; is_empty = is_none without negation; absent cel offset (0,0); opacity product and sign-extended offset as in C02. Partial: pixel values end to end and zlib correctness are not decided.',
+    design_ref='DESIGN.md section 4, C06',
+    note='Trusted: rustc MIR, the driver, spec table, flate2. Structural clauses only.',
+    technique='static analysis: read-schedule path enumeration vs spec + MIR provenance + switch tables + guard dominance')
+
 ALL = ['C%02d' % i for i in range(1, 20)]
 
 
